@@ -92,12 +92,12 @@ CHECKS = {
     },
     'C15': {
         'level': 'proof',
-        'text': 'KyteaWsConstFilter::filter and SplitLinebreaksFilter::filter are proved, for every well-formed sentence, to produce exactly their rule '
-                '(boundary i cleared iff types i and i+1 equal the filter type / set iff character i or i+1 is CR or LF; otherwise unchanged), to leave '
+        'text': 'KyteaWsConstFilter::filter, SplitLinebreaksFilter::filter and ConcatGraphemeClustersFilter::filter are proved, for every well-formed sentence, to produce exactly their rule '
+                '(boundary i cleared iff types i and i+1 equal the filter type / set iff character i or i+1 is CR or LF / cleared iff i lies inside a cluster of the cluster-by-cluster segmentation; otherwise unchanged), to leave '
                 'every other field untouched, to keep the invariant, with every unchecked index, unchecked str slice (at a proved char boundary) and '
                 'unwrap_unchecked proved safe; idempotence is a lemma over each rule.',
         'design_ref': 'DESIGN.md section 5.C15',
-        'note': 'Not covered by proof: grapheme filter (unicode-segmentation) and pattern tagger (hashbrown); the grapheme filter is exercised by the bounded sweep with known-answer cluster boundaries.',
+        'note': 'The grapheme filter is proved against an assumed contract of the unicode-segmentation call (uninterpreted first_cluster, 1 <= size <= remaining length); that the crate implements UAX #29 is checked by the bounded sweep with known-answer cluster boundaries only. Not covered by proof: pattern tagger (hashbrown).',
         'technique': TECH + '; rule as a spec function + frame postcondition',
     },
     'C16': {
@@ -257,8 +257,8 @@ CHECKS = {
                 'slice ranges, str slicing at character boundaries (lemma: byte offsets from the position map are char boundaries), tag-slot arithmetic.',
         'design_ref': 'DESIGN.md section 5.C18',
         'note': 'Covers: Sentence accessors/iterators, both parsers, write_tokenized_text (as_mut_vec bytes proved valid UTF-8), KyteaWsConstFilter, '
-                'SplitLinebreaksFilter, predictor kernel, cached type scorer, predict_tags, and the automaton-driven scorers (against an assumed '
-                'daachorse iterator contract). Not covered: grapheme filter (sweep with known-answer clusters only), feature configurations other than default '
+                'SplitLinebreaksFilter, ConcatGraphemeClustersFilter, predictor kernel, cached type scorer, predict_tags, and the automaton-driven scorers (against an assumed '
+                'daachorse iterator contract). The unchecked slice and range fill of the grapheme filter are proved in range against the assumed contract of the unicode-segmentation call. Not covered: feature configurations other than default '
                 'and fix-weight-length off; write_partial_annotation_text contains no unchecked operation (it is proved total in W_pawriter under C04). Both tiers also run the sweeps on a build with debug assertions (library UB checks on).',
         'technique': TECH + '; unchecked -> checked twin with bounds precondition',
     },
